@@ -294,6 +294,34 @@ func H_C18_deepequal_%[1]s(mode, n int) {
 	}
 }
 
+// H_C18_nested_%[1]s: as mode 1 with outer containers of length 2 whose inner containers have
+// length 0, 1, 0, 1 ... by position (an inner container that is empty on both sides, followed by
+// elements with independent leaves).
+func H_C18_nested_%[1]s() {
+	zzLen = 2
+	zzInnerAlt = true
+	rec := &zzRecLeaves{}
+	zzL = rec
+	zzAlt = 0
+	x := zzSym_%[1]s(zzDepth)
+	zzL = &zzMirrorLeaves{rec: rec, flip: zzrt.Choose("flip", len(rec.bools)+len(rec.chooses)+1)}
+	zzAlt = 0
+	y := zzSym_%[1]s(zzDepth)
+	zzL = zzSymLeaves{}
+	zzInnerAlt = false
+	vx, vy := zzFrom_%[1]s(x), zzFrom_%[1]s(y)
+	zzrt.Assume(!zzHasNaN(zzT_%[1]s, vx) && !zzHasNaN(zzT_%[1]s, vy))
+	got := x.DeepEqual(y)
+	want := zzSameValue(zzT_%[1]s, vx, vy)
+	zzrt.Assert(got == want, "DeepEqual is true exactly when both hold the same value (containers in containers)")
+	zzrt.Assert(y.DeepEqual(x) == got, "DeepEqual is symmetric")
+	if want {
+		zzrt.Cover("equal")
+	} else {
+		zzrt.Cover("different")
+	}
+}
+
 // H_C18_nil_%[1]s: nil receivers and arguments never panic.
 func H_C18_nil_%[1]s() {
 	zzLen = 1
@@ -351,6 +379,9 @@ func c18Harnesses(prog *MProgram) []Harness {
 			}
 			hs = append(hs, Harness{Func: "H_C18_deepequal_" + s.Name, Quick: tuples([]int64{1}, seq(0, 1)), Thorough: th, Covers: []string{"equal", "different"}})
 			hs = append(hs, Harness{Func: "H_C18_nil_" + s.Name, Covers: []string{"end"}})
+			if s.Name == "Nest" {
+				hs = append(hs, Harness{Func: "H_C18_nested_" + s.Name, Covers: []string{"equal", "different"}})
+			}
 			for _, fl := range s.Fields {
 				if fl.Type.Kind == "set" {
 					hs = append(hs, Harness{Func: "H_C18_setdup_" + s.Name, Quick: rng(2, 2), Thorough: rng(2, 2), Covers: []string{"dup", "nodup"}})
